@@ -45,7 +45,16 @@ func shortKey(k string) string {
 func (e *Engine) newCtx(fn *ssa.Function, ct *Contract) *FnCtx {
 	c := &FnCtx{e: e, f: NewFactory(), top: fn, contract: ct, kindCount: map[string]int{}, heap0: map[string]*Term{},
 		heapSort: map[string]Sort{}, used: map[string]bool{}, freshRefs: map[int]bool{}, structs: map[string]*structInfo{},
-		globals: map[*ssa.Global]*Term{}, ghostByType: map[string][]ghostField{}, inlinedExt: map[string]bool{}}
+		globals: map[*ssa.Global]*Term{}, ghostByType: map[string][]ghostField{}, inlinedExt: map[string]bool{}, unfolding: map[string]int{}, revealed: map[string]bool{}}
+	if ct != nil {
+		for _, r := range ct.Reveal {
+			if strings.Contains(r, "/") {
+				c.revealed[r] = true
+			} else {
+				c.revealed[ct.PkgPath+"."+r] = true
+			}
+		}
+	}
 	c.f.RegisterSeq("B", SInt, true)
 	c.alpha0 = c.f.Const("alpha0", SInt)
 	c.f.SetRange(c.alpha0, bi(0), nil)
